@@ -192,6 +192,28 @@ exp("parseVersionInfo", V2, "harmless", "`not (val is None)`; the try body throu
     also=[("            return parse_field_values_to_vinfo(field_values)\n        except",
            "            vinfo = parse_field_values_to_vinfo(field_values)\n            return vinfo\n        except")])
 
+LOOP_OLD = ("    else:\n        # parts of an optional group that was left out take no part in the match\n"
+            "        field_values = {key: val for key, val in match.groupdict().items() if val is not None}\n"
+            "        try:\n            return parse_field_values_to_vinfo(field_values)\n"
+            "        except (ValueError, OverflowError) as ex:\n"
+            "            # e.g. \"v2021.02.30\": matches the pattern but is not a date\n"
+            "            err_msg = f\"Invalid date in version string '{version_str}': {ex}\"\n"
+            "            raise version.PatternError(err_msg) from ex\n")
+LOOP_NEW = ("\n    field_values = {}\n    for key, val in match.groupdict().items():\n        if val is not None:\n"
+            "            field_values[key] = val\n\n"
+            "    try:\n        return parse_field_values_to_vinfo(field_values)\n"
+            "    except (ValueError, OverflowError) as ex:\n"
+            "        err_msg = f\"Invalid date in version string '{version_str}': {ex}\"\n"
+            "        raise version.PatternError(err_msg) from ex\n")
+ELIF = ("    elif len(match.group()) < len(version_str):", "\n    if len(match.group()) < len(version_str):")
+exp("parseVersionInfo", V2, "harmless", "comprehension -> `d = {}` + dict-building loop; elif/else -> separate ifs, flat tail",
+    LOOP_OLD, LOOP_NEW, also=[ELIF])
+exp("parseVersionInfo", V2, "break", "the same loop form, but `if val is not None` -> `if val`",
+    LOOP_OLD, LOOP_NEW.replace("if val is not None:", "if val:"), also=[ELIF])
+exp("parseVersionInfo", V2, "break", "the same loop form, but the item assignment under `else` (keeps nothing but None groups)",
+    LOOP_OLD, LOOP_NEW.replace("        if val is not None:\n            field_values[key] = val\n",
+                               "        if val is None:\n            field_values[key] = val\n"), also=[ELIF])
+
 # ---- v2version.is_valid ------------------------------------------------------------------------------------------
 TRY = "    try:\n        parse_version_info(version_str, raw_pattern)\n        return True\n    except version.PatternError:\n        return False"
 exp("isValid", V2, "break", "`return True` -> `return False`", TRY, TRY.replace("return True", "return False"))
@@ -204,6 +226,12 @@ exp("isValid", V2, "harmless", "result bound to an unused local", TRY, TRY.repla
 exp("isValid", V2, "harmless", "`return True` through a local", TRY, TRY.replace("        return True", "        ok = True\n        return ok"))
 exp("isValid", V2, "harmless", "handler binds the exception, comment added", TRY,
     TRY.replace("    except version.PatternError:", "    except version.PatternError as ex:  # no match").replace("    try:", "    # probe\n    try:"))
+
+AFTER = "    try:\n        parse_version_info(version_str, raw_pattern)\n    except version.PatternError:\n        return False\n    return True"
+exp("isValid", V2, "harmless", "`return True` moved behind the try statement (the try body falls through)", TRY, AFTER)
+exp("isValid", V2, "break", "the same form, but `return False` behind the try statement", TRY, AFTER.replace("    return True", "    return False"))
+exp("isValid", V2, "break", "the same form, but the handler falls through (`pass`) to `return True`", TRY,
+    AFTER.replace("        return False", "        pass"))
 
 
 def run(cmd, **kw):
